@@ -55,6 +55,67 @@ Proof. exact role_list_iff. Qed.
 Theorem C08_monotone : forall a a' r, Vle (visible a) (visible a') -> verify a r = true -> verify a' r = true.
 Proof. exact monotone. Qed.
 
+(* ---- construction of the auth zone along a call chain (auth_module.rs create_auth_zone) ----
+   A chain `l` lists the calls newest first: (actor of the caller, content of the caller's auth
+   zone at the time of the call, receiver kind).  `build l` is the zone create_auth_zone gives the
+   newest callee; `verify_call` checks that call against a role list. *)
+(* the parent chain of the new zone = the zones of the callers of the same global context *)
+Theorem C08_zone_parent : forall l, Forall not_root (same_ctx l) -> fz_par (build l) = map cdata (same_ctx l).
+Proof. exact build_parent. Qed.
+(* the global caller = the caller of the most recent context-changing call, with the zones of ITS context *)
+Theorem C08_zone_global_caller : forall l, Forall global_caller_kind l ->
+  fz_gc (build l) =
+  match from_barrier l with
+  | [] => None
+  | b :: t => Some (caller_id (ccaller b), false, cdata b :: map cdata (same_ctx t))
+  end.
+Proof. exact build_gc. Qed.
+(* so what a check sees is: the local implicit badges, the global caller's context, the own context *)
+Theorem C08_zone_visible : forall l, Forall global_caller_kind l ->
+  visible (to_azone (build l)) =
+  (match local_implicit (to_azone (build l)) with [] => [] | li => [{| z_proofs := []; z_vres := []; z_vnf := li |}] end)
+  ++ (match from_barrier l with [] => [] | b :: t => cdata b :: map cdata (same_ctx t) end)
+  ++ map cdata (same_ctx l).
+Proof. exact visible_of_chain. Qed.
+Theorem C08_zone_local_implicit : forall c d r t, global_caller_kind (c, d, r) -> Forall global_caller_kind t ->
+  local_implicit (to_azone (build ((c, d, r) :: t))) =
+  (match caller_pkg c with Some p => [(PKG_RES, p)] | None => [] end) ++
+  (match from_barrier ((c, d, r) :: t) with [] => [] | b :: _ => [(GC_RES, caller_id (ccaller b))] end).
+Proof. exact local_implicit_of_chain. Qed.
+(* barrier: every visible zone is the local implicit one, or belongs to the own context, or to the
+   context of the global caller — nothing older than the second most recent context change *)
+Theorem C08_zone_barrier : forall l z, Forall global_caller_kind l -> In z (visible (to_azone (build l))) ->
+  (z_proofs z = [] /\ z_vres z = [])
+  \/ exists x, cdata x = z /\
+       (In x (same_ctx l) \/ (exists t, from_barrier l = x :: t) \/ (exists b t, from_barrier l = b :: t /\ In x (same_ctx t))).
+Proof. exact barrier. Qed.
+(* callers that are not (under) a global object give no global caller; frame-owned callers give no badge *)
+Theorem C08_zone_no_global_caller : forall c d r t,
+  (c = CRoot \/ exists p, c = CMethod p ODirect \/ c = CMethod p OSubstateRef) ->
+  fz_gc (build ((c, d, r) :: t)) = None.
+Proof. exact build_gc_none. Qed.
+Theorem C08_zone_frame_owned : forall p d r t,
+  local_implicit (to_azone (build ((CMethod p OFrameOwned, d, r) :: t))) = [(PKG_RES, p)].
+Proof. exact build_gc_frame_owned. Qed.
+(* composition: a role-protected call at the end of any call chain is authorized iff some role of
+   its list has a rule satisfied by what the construction makes visible *)
+Theorem C08_call_authorized_iff : forall l addr roles owner keys,
+  verify_call l addr roles owner keys = true <->
+  exists k, In k keys /\ Sat (visible (to_azone (build l))) (role_rule addr roles owner k).
+Proof. intros. unfold verify_call. apply role_list_iff. Qed.
+
+Example C08_zone_nonvacuous :
+  let tp := {| z_proofs := [{| p_res := 1; p_amt := 5; p_ids := [] |}]; z_vres := []; z_vnf := [(10, 0)] |} in
+  let e := {| z_proofs := []; z_vres := []; z_vnf := [] |} in
+  let l := [(CMethod 6 (OGlobal 4), e, RMethod false false); (CFunction 2 1, tp, RMethod true false); (CRoot, e, RFunction)] in
+  let l2 := [(CMethod 12 (OGlobal 13), e, RMethod true false); (CFunction 2 1, tp, RMethod true false); (CRoot, e, RFunction)] in
+  (* own vault of a global component: the transaction's badges stay visible *)
+  verify_call l 77 [(7, Protected (Basic (Require (RNF (10, 0)))))] DenyAll [7] = true
+  (* a second global component: they are behind the barrier, only the caller badge counts *)
+  /\ verify_call l2 78 [(5, Protected (Basic (Require (RNF (10, 0)))))] DenyAll [5] = false
+  /\ verify_call l2 78 [(5, Protected (Basic (Require (RNF (1000002, 13)))))] DenyAll [5] = true.
+Proof. repeat split; reflexivity. Qed.
+
 (* non-vacuity: a rule using count-of, amount-of and composition, a stack with a signature badge
    in the global caller's zone and a fungible proof in its parent; satisfied, and no longer
    satisfied when the proof is too small *)
@@ -74,3 +135,11 @@ Print Assumptions C08_visible_zones.
 Print Assumptions C08_role_fallback.
 Print Assumptions C08_role_list.
 Print Assumptions C08_monotone.
+Print Assumptions C08_zone_parent.
+Print Assumptions C08_zone_global_caller.
+Print Assumptions C08_zone_visible.
+Print Assumptions C08_zone_local_implicit.
+Print Assumptions C08_zone_barrier.
+Print Assumptions C08_zone_no_global_caller.
+Print Assumptions C08_zone_frame_owned.
+Print Assumptions C08_call_authorized_iff.
